@@ -28,8 +28,9 @@ pub fn triples() -> Vec<Fee3> {
         Fee3::new(0, 0, o / 1000),
     ]
 }
-pub const AMPS: [u64; 4] = [0, 1, 1_000_000, 1_000_001];
-pub const GRACES: [u64; 6] = [0, 1, 2, 5, 30, 31];
+pub const AMPS: [u64; 6] = [0, 1, 1_000_000, 1_000_001, (1 << 32) + 100, u64::MAX];
+// (257, 286 and 2^32+5 have a low byte, resp. low word, inside the legal range: truncating validations)
+pub const GRACES: [u64; 10] = [0, 1, 2, 5, 30, 31, 257, 286, (1 << 32) + 5, u64::MAX];
 pub const DURATIONS: [u64; 3] = [DAY_NS - 1, DAY_NS, 2 * DAY_NS];
 pub fn growths() -> Vec<Decimal> {
     vec![Decimal::zero(), Decimal::percent(50), Decimal::one(), dec(ONE18 + 1), Decimal::percent(200)]
